@@ -76,7 +76,7 @@ def fill_scenarios(rng, quick):
     """pixman_fill / pixman_blt sweeps.  Each scenario: one raw buffer pair, ~24 calls."""
     execs = []
     k = 0
-    per_bpp = 11 if quick else 260
+    per_bpp = 9 if quick else 260
     for bpp in (1, 4, 8, 16, 24, 32):
         for si in range(per_bpp):
             lines = ["R fill%d_%d" % (bpp, k)]
@@ -851,7 +851,7 @@ def run(prop, args):
         fmts = DIRECT + ["r8g8b8", "a4", "a2r10g10b10", "a1r5g5b5", "a4r4g4b4", "r3g3b2", "x14r6g6b6", "rgba_float"]
         if not quick:
             fmts += ["b8g8r8", "x2b10g10r10", "a2r2g2b2", "x4a4", "r1g2b1", "a1r1g1b1", "rgb_float", "x1r5g5b5", "x4b4g4r4"]
-        execs += fillboxes_scenarios(rng, quick, fmts, 4 if quick else 50)
+        execs += fillboxes_scenarios(rng, quick, fmts, 3 if quick else 50)
         mfm = [DIRECT[args.seed % len(DIRECT)], rng.choice(["a1", "a8", "r5g6b5", "r8g8b8"])] if quick else \
             DIRECT + ["r8g8b8", "a4", "a2r10g10b10"]
         mx = fill_matrix_scenarios(rng, quick, mfm, "fill")
